@@ -865,7 +865,11 @@ func (p *Program) valueSources(v ssa.Value) []ssa.Value {
 				walk(e)
 			}
 		case *ssa.MakeInterface:
-			walk(x.X)
+			if _, isI := x.X.Type().Underlying().(*types.Interface); isI {
+				walk(x.X)
+			} else {
+				leaves = append(leaves, v) // a concrete value boxed into the interface: that is the source
+			}
 		case *ssa.ChangeInterface:
 			walk(x.X)
 		case *ssa.ChangeType:
